@@ -242,6 +242,8 @@ def _exec_runpp(net, op, i, ctx, model, defaults):
                       f"{stored_before} -> {dict(net.user_pf_options)}", op=i)
     reached = net.get("_options", None) is not opts_before and isinstance(net.get("_options", None), dict) and \
         "tolerance_mva" in net._options and "algorithm" in net._options
+    if fired and "_powerflow" not in fired["stack"]:
+        reached = False      # interrupted while the options were being initialised: nothing complete to compare
     sigs = []
     compared = 0
     if reached:
